@@ -354,3 +354,10 @@ proof!(c04_ops_cross, 4, {
     forget(c);
     kani::cover!(true, "end reached");
 });
+// strings through the dispatch: literal string (1 ASCII byte) vs string node (1 scalar)
+c04_ops!(c04_ops_str_str, 6, |x, y| {
+    let (mut b1, mut b2) = ([0u8; 4], [0u8; 4]);
+    sym_scalar(&mut b1, 0, 1);
+    sym_scalar(&mut b2, 0, 1);
+    (Mini::Str(str_over(leak(b1), 1)), Mini::Str(str_over(leak(b2), 1)))
+}, |m: &Mini| match m { Mini::Str(s) => Literal::String(String::from(*s)), _ => Literal::Null });
